@@ -265,12 +265,18 @@ pub fn par_for<F: Fn(usize) + Sync>(n: usize, f: F) {
                     if i >= n {
                         break;
                     }
-                    f(i);
+                    if let Err(e) = catch(|| f(i)) {
+                        ESCAPED.lock().unwrap().push(format!("work item {i}: {e}"));
+                    }
                 })
                 .unwrap();
         }
     });
 }
+
+/// Panics that escaped a worker body (harness bugs or engine panics outside a guarded call): reported
+/// as machinery errors by `report::finish`, never as verdicts.
+pub static ESCAPED: std::sync::Mutex<Vec<String>> = std::sync::Mutex::new(Vec::new());
 
 thread_local! {
     static LAST_PANIC: std::cell::RefCell<Option<String>> = const { std::cell::RefCell::new(None) };
